@@ -179,6 +179,16 @@ func genMux(p *simkit.Plan, r *simkit.Rand, tier string) {
 		}
 	}
 	if nclients >= 2 && r.Chance(1, 3) {
+		// (Half of the time right at the start of the plan: the multiplexers
+		// are certainly still up then.)
+		atStart := r.Chance(1, 2)
+		before := len(p.Ops)
+		defer func() {
+			if atStart && len(p.Ops) > before {
+				pattern := append([]simkit.Op(nil), p.Ops[before:]...)
+				p.Ops = append(pattern, p.Ops[:before]...)
+			}
+		}()
 		// A half-close racing with a large write on the same stream end, issued
 		// by two different clients, over a carrier that holds write buffers back.
 		// (On a stream of its own: the others may be closed by now.)
@@ -217,7 +227,7 @@ func genMux(p *simkit.Plan, r *simkit.Rand, tier string) {
 			}
 		}
 	}
-	if prof == "conform" && r.Chance(1, 5) {
+	if prof == "conform" && r.Chance(1, 12) {
 		// A sustained bulk transfer with heartbeats required: the carrier is
 		// saturated for several receive-timeout intervals on end (each data
 		// frame takes a small fraction of one), and heartbeats have to keep
@@ -230,8 +240,8 @@ func genMux(p *simkit.Plan, r *simkit.Rand, tier string) {
 		c["wbuf"] = int64(simkit.Pick(r, []int{2, 3}))
 		c["window"], c["window_b"] = 16384, 16384
 		c["sched_stall"] = 0
-		add(writeActor(side, slot), "write", int64(slot), int64(r.Range(600000, 1000000)))
-		for k := 0; k < 90; k++ {
+		add(writeActor(side, slot), "write", int64(slot), int64(r.Range(450000, 650000)))
+		for k := 0; k < 60; k++ {
 			add(readActor(other[side], slot), "read", int64(slot), 16384)
 		}
 	}
